@@ -182,15 +182,29 @@ pub fn random_valid(r: &mut impl RngCore, keys: &[RefKey]) -> Rec {
 
 /// Tune a padding value under `key` so that the record encodes to exactly `target` bytes, if possible.
 pub fn pad_to(rec: &Rec, key: &[u8], target: usize) -> Option<Rec> {
-    for len in 0..400usize {
+    let with = |len: usize| {
         let mut r2 = rec.clone();
         r2.map.insert(key.to_vec(), Item::S(vec![0xa5; len]));
-        let s = r2.size();
-        if s == target {
+        r2
+    };
+    let s0 = with(0).size();
+    if s0 > target {
+        return None;
+    }
+    if s0 == target {
+        return Some(with(0));
+    }
+    // the size grows by one per padding byte except where a length header grows (and, for the toy
+    // scheme, where the signature length changes): probe around the linear guess
+    let guess = target - s0;
+    let mut cands: Vec<usize> = (guess.saturating_sub(6)..=guess + 2).collect();
+    if rec.key.scheme == Scheme::Toy {
+        cands = (guess.saturating_sub(60)..=guess + 60).collect();
+    }
+    for len in cands {
+        let r2 = with(len);
+        if r2.size() == target {
             return Some(r2);
-        }
-        if s > target + 4 {
-            break;
         }
     }
     None
